@@ -60,8 +60,21 @@ func vStoreForPredicate(p *vRef, n, kmin, kmax, vmax int) *vStore {
 
 func VH_C01(t, n, B, lmax, kmin int) {
 	h := &vHoles{lmin: 0, lmax: lmax}
+	vLazyFormat(true) // the text of a folded number (Explain only) is opaque
+	if t >= 52 && t < 60 {
+		h.digits = 1 // chains with several literals: one digit each
+	}
+	if t >= 52 && t < 56 {
+		h.alpha = "ab"
+	}
 	p := vTemplateC01(t, h)
-	st := vStoreForPredicate(p, n, kmin, 2, 2)
+	var st *vStore
+	if t >= 52 && t < 56 {
+		// concatenation chains: the value must be able to hold key + two literals
+		st = vSymStore(n, 1, 1, 0, 3, "ab", "ab")
+	} else {
+		st = vStoreForPredicate(p, n, kmin, 2, 2)
+	}
 	q := "select * where " + p.render()
 	sel := make([]bool, n)
 	for i := 0; i < n; i++ {
